@@ -311,3 +311,39 @@ def vary_ensemble(prs, inst, kinds=("random", "near", "mixed", "prod_ent"), zero
         inst["probs"] = rest[:z] + [0.0] + rest[z:]
         inst["probs_given"] = True
     return inst
+
+
+# ------------------------------------------------------------------------------------------------
+# independence of NumPy's global floating-point error state
+
+
+class StrictFP:
+    """context: NumPy's floating-point error state set to 'raise' for invalid / divide / overflow (underflow stays ignored: denormal results
+    of legitimate arithmetic are not errors) and RuntimeWarnings of category 'invalid value' / 'divide by zero' turned into exceptions.
+    A function whose VALUE is specified for an input must return that value in this state too: evaluating 0/0, sqrt or log of a slightly
+    negative rounding residue and discarding the result afterwards (np.where) is invisible in the default state and raises here."""
+
+    def __enter__(self):
+        import warnings
+        self._err = np.seterr(invalid="raise", divide="raise", over="raise", under="ignore")
+        self._cw = warnings.catch_warnings()
+        self._cw.__enter__()
+        warnings.filterwarnings("error", message=".*invalid value.*", category=RuntimeWarning)
+        warnings.filterwarnings("error", message=".*divide by zero.*", category=RuntimeWarning)
+        return self
+
+    def __exit__(self, *exc):
+        self._cw.__exit__(*exc)
+        np.seterr(**self._err)
+        return False
+
+
+def strict_fp_call(fn, *a, **k):
+    """('ok', value) or ('raise', 'Type: message') for fn(*a, **k) evaluated under StrictFP"""
+    try:
+        with StrictFP():
+            return "ok", fn(*a, **k)
+    except BaseException as e:  # noqa: BLE001  (FloatingPointError, RuntimeWarning as error, anything else)
+        if isinstance(e, (KeyboardInterrupt, SystemExit)):
+            raise
+        return "raise", f"{type(e).__name__}: {str(e)[:200]}"
